@@ -354,7 +354,7 @@ def main(argv=None):
     # 1. committed regression replays (seconds), both tiers
     regdir = os.path.join(HERE, "regressions", pid)
     n_reg = 0
-    if os.path.isdir(regdir):
+    if os.path.isdir(regdir) and not os.environ.get("VERIF_NO_REGRESSIONS"):  # (the variable is for measuring what the generators alone reach)
         for fn in sorted(os.listdir(regdir)):
             if not fn.endswith(".json"):
                 continue
